@@ -114,6 +114,9 @@ BOM = b'\xef\xbb\xbfx  =  1\n'
 EMPTY = b''
 INVALID = b'def (:\n'
 UNDECODABLE = b'x = "\xff\xfe"\n'
+BOUNDARY = ["0in['\u00e9']", "x=0in['\u00e9\u00e9']", "0in['\u4e2d']", "1if'\u00e9'else 2", "'\u00e9'if 0else 1"]
+COOKIE_SRC = b'# -*- coding: latin-1 -*-\nname  =  "caf\xe9 cr\xe8me"\nprint(name)\n'
+COOKIE2_SRC = b'#!/usr/bin/python\n# vim: set fileencoding=iso-8859-15 :\ntitle  =  "\xa4 \xe9t\xe9"\n'
 SOURCES = {'witness': WITNESS, 'tiny': GROWING, 'x': GROW1, 'nonascii': NONASCII, 'latin1': LATIN1, 'bom': BOM, 'empty': EMPTY,
            'if': b'if a:\n    pass\n', 'str': b"s = ''", 'tuple': b'()'}
 
@@ -231,6 +234,19 @@ def scenarios_c13(r, tier):
         out.append(mk_route(route, WITNESS, fl, pl, pg))
     for k, pl in enumerate(PRESERVE_SPELLINGS):
         out.append(mk_route('file', WITNESS, ['--rename-globals'], pl, PRESERVE_SPELLINGS[(k + 3) % len(PRESERVE_SPELLINGS)]))
+    # every subset of the five annotation flags (one of them is a documented invalid combination)
+    ann = ['--no-remove-annotations', '--no-remove-variable-annotations', '--no-remove-return-annotations', '--no-remove-argument-annotations', '--remove-class-attribute-annotations']
+    for k in range(32):
+        out.append(mk_route('file', WITNESS, [a for j, a in enumerate(ann) if k >> j & 1]))
+    # several modules in one invocation: every module must come out as if it were minified alone
+    multi = {'exporter.py': b"__all__ = ['render_template', 'load_configuration']\ndef render_template(value):\n    return value\ndef load_configuration():\n    return render_template(1)\n",
+             'private.py': b"def render_template(argument):\n    return argument * 2\ndef load_configuration():\n    return render_template(21)\nprint(load_configuration())\n",
+             'generic.py': b"def first[ElementType](items: list[ElementType]) -> ElementType:\n    return items[0]\n",
+             'locals.py': b"def scale(values, factor):\n    ElementType = type(values[0])\n    return [ElementType(value * factor) for value in values], ElementType, ElementType.__name__\n"}
+    out.append({'paths': ['exporter.py', 'private.py'], 'files': dict(multi), 'flags': ['--in-place', '--rename-globals']})
+    out.append({'paths': ['private.py', 'exporter.py'], 'files': dict(multi), 'flags': ['--in-place', '--rename-globals'], 'pg': ['main']})
+    out.append({'paths': ['generic.py', 'locals.py'], 'files': dict(multi), 'flags': ['--in-place']})
+    out.append({'paths': ['exporter.py', 'private.py', 'generic.py', 'locals.py'], 'files': dict(multi), 'flags': ['--in-place', '--rename-globals'], 'pl': ['factor']})
     # invalid combinations: nothing may be read or written
     out.append({'paths': ['-', 'a.py'], 'files': {'a.py': WITNESS}, 'stdin': WITNESS, 'flags': ['--in-place']})
     out.append({'paths': ['-', 'a.py'], 'files': {'a.py': WITNESS}, 'stdin': WITNESS, 'flags': []})
@@ -265,6 +281,12 @@ def scenarios_c14(r, tier):
     for s in srcs:
         for rt in routes:
             out.append(mk_route(rt, SOURCES[s], []))
+    # sources at the size boundary whose minified form has the same number of characters but more UTF-8 bytes
+    for b in BOUNDARY:
+        for rt in routes:
+            out.append(mk_route(rt, b.encode('utf-8'), []))
+    for rt in routes:
+        out.append(mk_route(rt, COOKIE_SRC, []))
     for s in ['latin1', 'tiny', 'str']:
         for rt in routes:
             out.append(mk_route(rt, SOURCES[s], [], env_force='1'))
@@ -278,7 +300,7 @@ def scenarios_c14(r, tier):
 
 def scenarios_c15(r, tier):
     out = []
-    good = [b'x  =  1\n', b'def f(abc):\n    return abc\n', WITNESS, b'import a\nimport b\n']
+    good = [b'x  =  1\n', b'def f(abc):\n    return abc\n', WITNESS, b'import a\nimport b\n', COOKIE_SRC, COOKIE2_SRC, 'text  =  "\u00e9\u4e2d"\n'.encode('utf-8'), b'\xef\xbb\xbfbom  =  1\n']
     bad = [('invalid', INVALID), ('undecodable', UNDECODABLE), ('unreadable', ('link', 'nonexistent-target'))]
     n = {'quick': 3, 'search': 4}.get(tier, 6)
     # failure at every position of a flat list of explicit file arguments and of a directory
